@@ -314,7 +314,10 @@ def grammar():
              "<html><head><title>VISt</title><style>HIDa</style></head><body><p>VISa</p></body></html>",
              "<p>VISa</p><!-- HIDa --><p>VISb</p>", "<p>VISa<!-- <p>HIDa</p> -->VISb</p>", "<p>VISa</p><![CDATA[HIDa]]><p>VISb</p>",
              "<p>VISa</p><embed src=x><p>VISb</p><p>VISc</p>", "<p>VISa</p><embed src=x>VISb</b><p>VISc</p>",
-             "<table><tr><td>VISa<noscript><img></noscript></td><td>VISb</td></tr></table><p>VISc</p>"]
+             "<table><tr><td>VISa<noscript><img></noscript></td><td>VISb</td></tr></table><p>VISc</p>",
+             # input ending inside an unterminated comment / conditional comment / declaration: its content stays hidden
+             "<p>VISa</p><p>VISb</p><!-- HIDa", "<p>VISa</p><!--[if mso]><p>HIDa</p>", "<p>VISa</p><p>VISb</p><!-- HIDa <b>HIDb</b>",
+             "<p>VISa</p><noscript>HIDa", "<p>VISa</p><script>HIDa"]
     return docs
 
 
